@@ -13,7 +13,7 @@ SPEC = {
                                     "C11_protocol_delivers_exactly_once", "C11_protocol_no_deadlock",
                                     "C11_protocol_terminates", "C11_protocol_matches_source", "C11_runs_agree", "C11_H2_from_job_invariants",
                                     "C11_nonvacuous"]},
-    "harness_args": lambda tier: ["C11", "--n", 300, "--perms", 14, "--scen", 24, "--bin", 5] if tier == "quick"
+    "harness_args": lambda tier: ["C11", "--n", 240, "--perms", 12, "--scen", 26, "--bin", 5] if tier == "quick"
                                  else ["C11", "--n", 1800, "--perms", 30, "--scen", 160, "--bin", 40, "--race", 1],
     "search_args": lambda tier: ["C11", "--n", 600, "--perms", 12, "--scen", 40, "--bin", 6],
     "level": "proof",
@@ -31,30 +31,44 @@ SPEC = {
         "the model of go1.24 slices.SortStableFunc (insertion-sorted blocks of 20 + symMerge with its binary searches and rotations, written over the "
         "two runs) is proved to return the sorted permutation for any length (C11_stable_sort_correct); that the MODEL equals Go's algorithm is "
         "validated differentially, also on inconsistent comparators and on streams of 21-45 reports",
-        "Go scheduler / memory model: arrival orders are over-approximated by all permutations; data-race freedom is NOT proved "
+        "Model/ScanLTS.v: transition system written by hand from the concurrency skeleton of cmd/pint/scan.go (Go channel semantics assumed: "
+        "FIFO buffered channels, blocking send/receive, range ends on closed+drained, WaitGroup.Wait returns after all Done); "
+        "translator/ext_C11.go re-extracts the skeleton from the AST each run (C11_protocol_matches_source); ctx.Done() cancellation not modelled",
+        "Go scheduler / memory model: arrival orders are over-approximated by all paths of the transition system / all permutations; data-race freedom is NOT proved "
         "(thorough tier runs a -race build over workers x GOMAXPROCS: search, not proof)",
     ],
     "assumptions": [
         "H1 (isEqual symmetric on the stream and implies equality of rendered fields) and H2 (sort key injective on isEqual classes) are "
         "premises of C11_perm_invariant; they are evaluated on every recorded real stream (histogram real:H1=..,H2=..), and every real "
         "stream is additionally replayed under job-order-preserving interleavings through the real Summary and reporters",
+        "J-loc / J-diag (premises of C11_H2_from_job_invariants) are properties of what checks answer; not proved, H2 is monitored instead",
         "the reports a job produces depend only on (entry, check, all entries), not on scheduling (checked by the binary runs "
         "with --workers 1/4/16/64 only)",
     ],
 }
 
 MANIFEST = {
-    "text": "Theorems (Coq, no axioms): for every report stream s and every permutation s' of it (a superset of all worker interleavings), "
+    "text": "Theorems (Coq, no axioms): the channel protocol of checkRules/scanWorker (producer -> jobs channel -> n workers -> results "
+            "channel -> main loop, WaitGroup closing results) is a transition system whose every path, for every job list, n >= 1 workers and "
+            "capacity >= 1, delivers every report of every job to Summary.Report exactly once (the arrival stream is a permutation of the "
+            "per-job lists), cannot get stuck and is finite; its concurrency skeleton is re-extracted from scan.go's AST on every run and "
+            "compared (cancellation via ctx.Done() is outside the model); hence any two complete runs with any worker counts/schedules give "
+            "the same processed summary, JSON and console output under H1 and H2 (C11_runs_agree). For every report stream s and every permutation s' of it (a superset of all worker interleavings), "
             "under H1 (isEqual symmetric on the stream's elements and implying equality of every rendered field) and H2 (the 8-component "
             "sort key is injective on isEqual classes), Summary.Report + SortReports + Dedup yield the identical list of reports, duplicate "
             "flags and folded duplicates, hence identical JSON and console output (any stream length: the model of Go's stable sort, insertion-sorted blocks merged by symMerge, "
             "is proved to return the unique strictly sorted permutation); the lint/ci exit status is permutation invariant unconditionally; isEqual is symmetric when diagnostics carry "
             "no repeated (columns,message) triple and refuted otherwise; the unconditional statement is refuted at Summary level "
-            "(Owner-only difference; asymmetric diagnostics). Partial by nature: data-race freedom is a runtime remainder covered only by "
+            "(Owner-only difference; asymmetric diagnostics). H2 follows from two named invariants of the job enumeration (a location belongs to one "
+            "entry; the first diagnostic determines the rest) that are statements about opaque checks, so H2 stays monitored. isEqual reads the "
+            "position of every diagnostic (two genuine schedule dependences found with this check were fixed in /repo: 1588b37, d8f60c6; their "
+            "witnesses are replayed every run). Partial by nature: data-race freedom is a runtime remainder covered only by "
             "-race runs in the thorough tier. The model is tied to the code on every run by differential execution of the real Summary, "
             "JSON and console reporters on generated streams and their permutations, by evaluating H1/H2 on streams recorded from the real "
             "check pipeline and replaying interleavings through the real code, and by running the real binary with --workers 1/4/16/64.",
-    "note": "Coq 8.16.1 kernel+VM, no axioms. Trusted: hand model of reporter.go/json.go/console headers and of go1.24 SortStableFunc "
+    "note": "Coq 8.16.1 kernel+VM, no axioms. Trusted: translator/ext_C11.go (go/ast skeleton extraction, fails closed) and the reading of "
+            "the skeleton as the transition system Model/ScanLTS.v (Go channel semantics: FIFO buffers, blocking send/receive, range ends on "
+            "closed+drained, WaitGroup); hand model of reporter.go/json.go/console headers and of go1.24 SortStableFunc "
             "(validated differentially, not verified from source); harness replica of checkRules' job enumeration (validated against the binary); "
             "Rule.IsSame treated as class equality; scheduler/memory model outside the model.",
     "technique": "Coq theorem over list/fold model (stable-sort uniqueness under a strict total order) + differential correspondence on permuted streams + H1/H2 monitoring of real streams + binary runs across worker counts (+ -race matrix in thorough)",
